@@ -297,7 +297,8 @@ func (s *sorter) typeInv(t types.Type, v string) string {
 		return And(App("<=", "0", App("soff", v)), App("<=", "0", App("slen", v)), App("<=", App("slen", v), App("scap", v)),
 			Imp(Eq(App("sarr", v), "nilR"), Eq(v, "nilS")))
 	case *types.Interface:
-		return Imp(Eq(App("itag", v), "0"), Eq(v, "nilI"))
+		// nil interface is canonical; interfaces never hold typed nil pointers (assumption, see DESIGN)
+		return And(Imp(Eq(App("itag", v), "0"), Eq(v, "nilI")), Imp(Not(Eq(App("itag", v), "0")), Not(Eq(App("iref", v), "nilR"))))
 	case *types.Struct:
 		si := s.structOf(t)
 		var cs []string
